@@ -2,6 +2,13 @@
 EXTENDS BaggageRT
 MCHAlpha == @HALPHA@
 MCHExtra == @HEXTRA@
+MCHAlpha2 == @HALPHA2@
+MCGKeys == @GKEYS@
+MCGAlpha == @GALPHA@
+MCGOdd == @GODD@
+MCGTails == @GTAILS@
+MCGSmall == @GSMALL@
+MCGSeps == @GSEPS@
 MCArgLists == @ARGLISTS@
 MCDev == @DEV@
 =============================================================================
